@@ -81,7 +81,8 @@ def run_unit(unit, rec):
     lat = AL.lattice(np.zeros(n), np.ones(n), (0.0, 1.0, 2.5)) if n <= 4 else np.vstack([AL.lattice(np.zeros(n), np.ones(n), (0.0, 2.5))[:: max(1, 2 ** n // 40)], np.eye(n), np.ones((1, n)) * 1.0])
     # a per-receptor baseline with an exact zero entry (a receptor without dark activity) in addition to the shared menu
     bmenu = AL.baseline_menu(m) + [("vector-zero-entry", np.where(np.arange(m) == 1, 0.0, 0.125 + 0.25 * np.arange(m)))]
-    for (kname, K), (bname, bl) in itertools.product(AL.K_menu(m), bmenu):
+    kmenu = AL.K_menu(m) + [("matrix-lower-triangular", np.tril(0.5 + 0.25 * ((np.arange(m)[:, None] * 2 + np.arange(m)[None, :]) % 4)))]
+    for (kname, K), (bname, bl) in itertools.product(kmenu, bmenu):
         sig = dict(K=kname, baseline=bname, domain=dk, shape="%dx%d" % (m, n))
         kw = {}
         if K is not None:
@@ -193,6 +194,24 @@ def run_unit(unit, rec):
                 _v(rec, "d", dict(sig, api="register_background_adaptation", op="bg"), "relative capture of the adapting background is not 1", dict(K=kname, baseline=bname, op="bg", with_domain=with_domain), observed=rc, expected=np.ones(m))
         Qbg = np.einsum("d,id,d->i", bg, filters, wts)
         check_caps("after-bg", 1.0 / (Qbg + bvec))
+        if dk != "scalar":
+            # a background measured on its OWN wavelength axis (a sub-range of the filter axis, non-zero at its ends):
+            # after adapting to it, its relative capture (given on that same axis) is 1
+            d2 = np.asarray(domain, dtype=float)[1:-1]
+            bg2 = bg[1:-1] + 0.5
+            rec.trans(2)
+            rec.path()
+            try:
+                est.register_background_adaptation(bg2, domain=d2)
+                rc = np.asarray(est.relative_capture(bg2, domain=d2))
+                okv = rc.shape == (m,) and np.all(np.abs(rc - 1.0) <= 1e-12)
+                rec.distinct((m, n, dk, kname, bname, "bg-own-domain"))
+                rec.outcome("bg-adaptation/%s" % ("one" if okv else "not-one"))
+                if not okv:
+                    _v(rec, "d", dict(sig, api="register_background_adaptation", op="bg-own-domain"), "relative capture of the adapting background (given on its own domain) is not 1", dict(K=kname, baseline=bname, op="bg-own-domain"), observed=rc, expected=np.ones(m))
+            except Exception as e:  # noqa
+                _v(rec, "f", dict(sig, api="register_background_adaptation", **exc_sig(e)), "background adaptation on its own domain raised %r" % (e,), dict(K=kname, baseline=bname, op="bg-own-domain"))
+            est.register_background_adaptation(bg)
         # -- d again: dim backgrounds in absolute radiometric units (captures of order 1e-6 .. 1e-13)
         for dim in (1e-7, 1e-14):
             bgd = bg * dim
